@@ -308,3 +308,44 @@ def cell_extend_sites(prog, cf):
         out.append({"term": t, "bid": bid, "chars_src": chars[2][0], "col": col, "row": row, "ch": ch, "filter_atoms": atoms, "has_filter": bool(filt)})
     return out
 
+
+
+def origin_mentions(prog, q, e, pred, region, root=None, depth=0, _seen=None):
+    """does the value `e` (an expression of body q) mention something satisfying `pred`, when the parameters of q are
+    traced back: captured variables of a closure to what the creating body captured, parameters of a private helper
+    to the arguments at every call site inside `region` (the bodies a rule looks at)?  `root` is the entry of the
+    region: its parameters are the rule's inputs and are not traced further."""
+    from .mirlib import Expr, Program
+    from .exprs import mentions, strip
+    if mentions(e, pred):
+        return True
+    if depth > 6:
+        return False
+    _seen = _seen if _seen is not None else set()
+    refs = []
+    mentions(e, lambda z: z[0] == "param" and refs.append(z) and False)
+    for z in refs:
+        key = (q, z[1], tuple(z[2][:1]))
+        if key in _seen:
+            continue
+        _seen.add(key)
+        if "{closure" in q.rsplit("::", 1)[-1] and z[1] == 1:
+            idx = [f for f in z[2] if str(f).isdigit()]
+            parent = q.rsplit("::{closure", 1)[0]
+            if idx and parent in prog.bodies:
+                pex = Expr(prog, parent)
+                for blk in prog.bodies[parent]["blocks"]:
+                    for st in blk["stmts"]:
+                        rv = st.get("rv") or {}
+                        if rv.get("k") == "agg" and rv.get("closure") == q and int(idx[0]) < len(rv["ops"]):
+                            if origin_mentions(prog, parent, pex.operand(rv["ops"][int(idx[0])]), pred, region, root, depth + 1, _seen):
+                                return True
+        elif "{closure" not in q.rsplit("::", 1)[-1] and q != root:
+            for c in region:
+                cex = None
+                for bid, t in prog.calls(c):
+                    if Program.callee_name(t) == q and z[1] - 1 < len(t["args"]):
+                        cex = cex or Expr(prog, c)
+                        if origin_mentions(prog, c, cex.operand(t["args"][z[1] - 1]), pred, region, root, depth + 1, _seen):
+                            return True
+    return False
